@@ -124,6 +124,10 @@ func runC01(c *Ctx) {
 					}
 					l0, o0 := r.Put(bucket, "copy-src", srcH, body)
 					r.judgeProj(l0, o0, "c01:copy-src", ident, nil)
+					if x := c.Rng.Intn(3); x < 2 {
+						// the metadata directive of S3 (the server stores it like any x-amz- header)
+						md["X-Amz-Metadata-Directive"] = []string{"COPY", "REPLACE"}[x]
+					}
 					line, obs = r.Copy(bucket, "copy-src", bucket, key, md)
 					md["X-Amz-Copy-Source"] = "/" + bucket + "/copy-src"
 					// the source must still return exactly what was PUT on it
@@ -134,6 +138,16 @@ func runC01(c *Ctx) {
 						if !sentSubset(srcMd, os) {
 							c.mismatch(Mismatch{Kind: "spec", Backend: kind, Case: append(append([]string{}, r.Lines...)), Finger: "c01:source-metadata-changed-by-copy",
 								Impl: trunc(os, 300), Spec: "the copy source still returns the headers it was PUT with: " + metaLine(srcMd)})
+						}
+						// the copy is overwritten with other headers: still nothing of that reaches the source
+						lo, oo := r.Put(bucket, key, map[string]string{"Content-Type": "application/x-overwritten", "Content-Disposition": "inline; over", "X-Amz-Meta-Over": "1"}, append([]byte("over:"), body...))
+						r.judgeProj(lo, oo, "c01:overwrite-of-copy", ident, nil)
+						ls, os = r.Get(bucket, "copy-src")
+						r.judgeProj(ls, os, "c01:source-after-overwrite-of-copy", ident, nil)
+						c.R.Evaluations++
+						if !sentSubset(srcMd, os) || !strings.HasPrefix(os, fmt.Sprintf("obj %s %s ", drv.Hex(body), etagOf(body))) {
+							c.mismatch(Mismatch{Kind: "spec", Backend: kind, Case: append(append([]string{}, r.Lines...)), Finger: "c01:source-changed-by-overwrite-of-copy",
+								Impl: trunc(os, 300), Spec: "the copy source still returns its bytes and the headers it was PUT with: " + metaLine(srcMd)})
 						}
 					}
 				case "api":
